@@ -266,7 +266,7 @@ RunResult run(J const &plan) {
   sim.finish(res);
   res.counters["probe.steps_compared"] += compared;
   res.counters["probe.repeated_steps"] += repeats;
-  res.counters["probe.restarts"] += restarts;
+  res.counters["probe.restarts"] += restarts; res.counters["fault.stop_and_restart"] += restarts;
   res.counters["probe.reflections"] += reflections;
   res.nontrivial = compared > 0;
   res.class_hash = fnv_str(sc.at("template").as_str(), 17);
